@@ -185,6 +185,16 @@ def c_sjoin(rng):
         got = sorted(got, key=lambda t: (t[1], -1 if t[0] is None else t[0]))
         if got != exp:
             out.append(V(f'sjoin.pairs/{tag}', f'got {got} expected {exp}', recipe))
+    # the clashing column `v` comes out as v_left (the left frame's value) and v_right (the right frame's value)
+    if not out and 'v_left' in j.columns and 'v_right' in j.columns:
+        for a_, b_, vl, vr in zip(j['a'], j['b'], j['v_left'], j['v_right']):
+            okl = pd.isna(vl) if pd.isna(a_) else (not pd.isna(vl) and int(vl) == 10 * int(a_))
+            okr = pd.isna(vr) if pd.isna(b_) else (not pd.isna(vr) and int(vr) == 7 * int(b_))
+            if not (okl and okr):
+                out.append(V(f'sjoin.suffixed-columns/{how}', f'row a={a_} b={b_}: v_left={vl} v_right={vr}', recipe))
+                break
+    elif not out and len(j):
+        out.append(V(f'sjoin.columns/{how}/missing-suffixed', f'{list(j.columns)}', recipe))
     return out
 
 
